@@ -257,11 +257,11 @@ pub fn apply(edit: &str, w: &mut Wire, r: &mut Rng) -> bool {
             let (mut path, q) = split_uri(&w.uri);
             // leave a scheme://authority prefix alone
             let start = match path.windows(3).position(|x| x == b"://") {
-                Some(p) => match path[p + 3..].iter().position(|c| *c == b'/') {
+                Some(p) if path.first() != Some(&b'/') => match path[p + 3..].iter().position(|c| *c == b'/') {
                     Some(k) => p + 3 + k,
                     None => return false,
                 },
-                None => 0,
+                _ => 0,
             };
             if path.get(start) != Some(&b'/') {
                 return false;
